@@ -6,7 +6,7 @@
 #
 # quick    : the analysis of the working tree (default build).
 # thorough : the analysis on three variants of the program (default, GOARCH=386,
-#            with test files) which must agree, plus the sensitivity self-test: every
+#            GOARCH=arm64) whose violations are merged, plus the sensitivity self-test: every
 #            variant of /verif/variants and every kept seeded change for this property
 #            is applied to a scratch copy of the working tree (outside /repo and
 #            /verif, deleted afterwards) and must be reported by the analysis.
